@@ -57,7 +57,13 @@ def col_shift(text_t, pos_t):
     return z3.If(Lf(pos_t) == 1, bomlen(text_t), z3.IntVal(0))
 
 
-TK = register(Target('cssutils/tokenize2.py', 'Tokenizer.tokenize', ['C05', 'C01']))
+TK = register(Target('cssutils/tokenize2.py', 'Tokenizer.tokenize', ['C05', 'C01'], name='cssutils/tokenize2.py::Tokenizer.tokenize[loop body]'))
+TK.loop_phase = 'body'
+TK_E = register(Target('cssutils/tokenize2.py', 'Tokenizer.tokenize', ['C05', 'C01'], name='cssutils/tokenize2.py::Tokenizer.tokenize[loop entry]'))
+TK_E.loop_phase = 'entry'
+# a production that does not match leaves no constraint behind (the contract below does not speak about classification - that is the
+# regex-lemma side - so the negated regular-expression constraints would only cost solver time)
+TK.regex_forget_nonmatch = TK_E.regex_forget_nonmatch = True
 
 
 def m_count(I, args, kw):
@@ -76,6 +82,7 @@ def m_rfind(I, args, kw):
     return Sym('int', RFIND(lift(s)))
 
 
+@TK_E.inputs
 @TK.inputs
 def _in_tk(I):
     import cssutils.tokenize2 as T2
@@ -102,7 +109,13 @@ def _in_tk(I):
     def on_yield(I2, fr, v):
         pos = fr.lookup('pos')
         pt = pos.t if isinstance(pos, Sym) else z3.IntVal(pos)
-        raw = fr.locals.get('c') if (isinstance(v, tuple) and len(v) > 1 and v[1] is fr.locals.get('c')) else fr.locals.get('found')
+        loc = fr.locals
+        if isinstance(v, tuple) and len(v) > 1 and v[1] is loc.get('c'):
+            raw = loc.get('c')
+        elif isinstance(v, tuple) and len(v) > 1 and loc.get('possiblecomment') is not None and v[1] is loc.get('possiblecomment'):
+            raw = loc.get('possiblecomment')
+        else:
+            raw = loc.get('found')
         g['yields'].append((v, pos, raw))
         _inst_prefix(I2.p, text.t, pt)
         if not (isinstance(v, tuple) and len(v) == 4):
@@ -112,9 +125,17 @@ def _in_tk(I):
         cl = v[3].t if isinstance(v[3], Sym) else z3.IntVal(v[3])
         name = v[0]
         if isinstance(name, str) and name == 'EOF':
-            # the end marker sits behind the last character: position len(text)
+            # the end marker sits behind the last character: position len(text).  Recorded findings C05-eof-position-completed-string-uri /
+            # -comment: after a token completed at the end of input the marker's position is off (pos overshoots / line, col not advanced);
+            # the class is exactly "the last iteration completed a token" (ghost `completed`), excluded only while a finding is recorded
+            from pyvc.target import known_active
             n_ = z3.Length(text.t)
-            I2.p.oblige('yield.EOF_carries_line_and_column_of_the_end_of_input', z3.And(ln == Lf(n_), z3.Or(cl == Cf(n_), col_shift(text.t, n_) > 0)))
+            _inst_prefix(I2.p, text.t, n_)
+            exact = z3.And(ln == Lf(n_), z3.Or(cl == Cf(n_), col_shift(text.t, n_) > 0))
+            comp = g.get('completed_term', z3.BoolVal(False))
+            if known_active('C05-eof-position-completed-string-uri') or known_active('C05-eof-position-completed-comment'):
+                exact = z3.Or(exact, comp)
+            I2.p.oblige('yield.EOF_carries_line_and_column_of_the_end_of_input', exact)
         else:
             I2.p.oblige('yield.token_carries_line_and_column_of_its_first_character', z3.And(ln == Lf(pt), z3.Or(cl == Cf(pt), col_shift(text.t, pt) > 0)))
 
@@ -123,6 +144,8 @@ def _in_tk(I):
 
 
 def _inv(I, fr, it):
+    """pos is a position of the text whose line and column are the counters - or (full-sheet mode only) the previous iteration completed
+    an unterminated token at the end of input, after which pos >= len(text) and the loop ends (ghost flag `completed`)"""
     text = fr.lookup('text')
     pos, line, col = fr.lookup('pos'), fr.lookup('line'), fr.lookup('col')
     pt = pos.t if isinstance(pos, Sym) else z3.IntVal(pos)
@@ -133,7 +156,22 @@ def _inv(I, fr, it):
     extra = []
     if lent is not None:
         extra.append((lent.t if isinstance(lent, Sym) else z3.IntVal(lent)) == n)
-    return z3.And(pt >= 0, pt <= n, lt == Lf(pt), ct == Cf(pt) - col_shift(text.t, pt), *extra)
+    g = I.p.ghost
+    comp = g.get('completed_term')
+    if comp is None:
+        if getattr(I.p.engine, 'loop_phase', None) == 'entry':
+            comp = z3.BoolVal(False)
+        else:
+            I.p.counter += 1
+            comp = z3.Bool(f'completed!{I.p.counter}')
+        g['completed_term'] = comp
+    fs = fr_truth(fr, 'fullsheet')
+    exact = z3.And(pt <= n, lt == Lf(pt), ct == Cf(pt) - col_shift(text.t, pt), Lf(pt) >= 1, Cf(pt) >= 1)
+    from pyvc.target import known_active
+    if known_active('C05-eof-position-completed-string-uri') or known_active('C05-eof-position-completed-comment'):
+        # (while the findings were open: after a completion pos overshot the end / line and col were not advanced)
+        return z3.And(pt >= 0, z3.Or(exact, z3.And(comp, fs, pt >= n)), *extra)
+    return z3.And(pt >= 0, exact, *extra)
 
 
 def _inst_prefix(p, text_t, pt):
@@ -167,7 +205,8 @@ def _at_start(I, fr):
 
 
 def _at_end(I, fr):
-    """tiling: the iteration consumed text[pos0:pos'] and yielded at most one token, whose raw text is exactly that piece"""
+    """tiling: the iteration consumed text[pos0:pos'] and yielded at most one token, whose raw text is exactly that piece - or, in
+    full-sheet mode at the end of input, that piece completed (ghost `completed` := the raw text is not the consumed piece)"""
     p = I.p
     g = p.ghost
     ys = g['yields'][g['iter_start_yields']:]
@@ -177,12 +216,14 @@ def _at_end(I, fr):
     p1 = pos1.t if isinstance(pos1, Sym) else z3.IntVal(pos1)
     text = g['text']
     inst_advance(p, text.t, p0, p1 - p0)
-    if ys:
-        v, ypos, found = ys[0]
-        if found is not None and SX.kind_of(found) == 'str':
-            ft = lift(found)
-            p.oblige('iteration.token_text_is_exactly_the_consumed_piece', z3.Or(z3.SubString(text.t, p0, p1 - p0) == ft,
-                                                                                  z3.And(fr_truth(fr, 'fullsheet'), p1 >= z3.Length(text.t))))
+    raw = ys[0][2] if ys else (fr.locals.get('found') if fr.locals.get('found') is not None else fr.locals.get('c'))
+    if raw is not None and SX.kind_of(raw) == 'str':
+        piece_ok = z3.SubString(text.t, p0, p1 - p0) == lift(raw)
+        g['completed_term'] = z3.Not(piece_ok)
+        if ys:
+            p.oblige('iteration.token_text_is_exactly_the_consumed_piece', z3.Or(piece_ok, z3.And(fr_truth(fr, 'fullsheet'), p1 >= z3.Length(text.t))))
+    else:
+        g['completed_term'] = z3.BoolVal(False)
 
 
 def fr_truth(fr, name):
@@ -191,9 +232,13 @@ def fr_truth(fr, name):
     return SX.as_bool_term(t)
 
 
-TK.loops[('loop', 1)] = {'name': 'scan', 'quantified': False, 'inv': _inv, 'before_entry': _before_entry, 'variant': _variant, 'havoc': ['pos', 'line', 'col'], 'at_start': _at_start, 'at_end': _at_end}
+TK.loops[('loop', 1)] = {'name': 'scan', 'quantified': False, 'modular': True, 'inv': _inv, 'before_entry': _before_entry, 'variant': _variant,
+                         'havoc': ['pos', 'line', 'col'], 'forget': ['match', 'found', 'matcher', 'BOM', 'name', 'c', 'value', 'nls', 'possiblecomment', 'possibleuri', 'end'],
+                         'at_start': _at_start, 'at_end': _at_end}
+TK_E.loops = TK.loops
 
 
+@TK_E.ensure
 @TK.ensure
 def exactly_one_end_marker_in_fullsheet_mode(fullsheet, result):
     # (the generator's output as collected after the loop: only the tokens yielded after the cut point are visible here)
